@@ -8,6 +8,8 @@ import FormulaicVerif.Proofs.C01Intercept
 import FormulaicVerif.Proofs.C01TopLevel
 import FormulaicVerif.Proofs.C01Denote
 import FormulaicVerif.Proofs.C01String
+import FormulaicVerif.Proofs.C01StringR
+import FormulaicVerif.Proofs.C01Respace
 import FormulaicVerif.Proofs.C01Algebra
 import FormulaicVerif.Proofs.C01FormsGrammar
 import FormulaicVerif.Proofs.C19SF
@@ -20,8 +22,8 @@ are about the very definitions the correspondence engine `c01` runs: the parser 
 MAIN THEOREM (C01.7d–j, reference semantics `Spec/WilkinsonDenote.lean`): for every formula of the
 documented grammar — `Side`, `~ Side`, `Side ~ Side`; `Side := Sum | … | Sum`; `Sum` any expression over
 `+ - * / %in% : ** ^`, parentheses, a leading sign; unbounded nesting — that the feature flags allow and
-that has no literal `0`, and for every parser configuration, `get_terms` IS the documented denotation
-(rejections included) and `Formula(<str>)` is that denotation simplified and stably ordered by degree:
+that has no literal `0` (see below for `0`, sign runs, `.` and opaque leaves), and for every parser
+configuration, `get_terms` IS the documented denotation (rejections included) and `Formula(<str>)` is that denotation simplified and stably ordered by degree:
 from the token sequence (C01.7e); from the STRING, with no hypothesis about the tokenizer, when the
 formula is written with one space after every token and its atoms are plain names / numbers (C01.7h–j);
 from any other spelling given that it tokenises to the formula's token sequence (C01.7d; source spans
@@ -40,16 +42,29 @@ SPECIFICATION FORMS (C01.9a–f, `Model/FromSpec.lean`): string = list of Terms 
 string = dict = `lhs=`/`rhs=` keywords = `Structured`; tuple = `|`; `Formula("l ~ p") =
 Formula(lhs="l", rhs="1 + p")` for the documented grammar with no hypothesis left.
 
-FULL (unproved): `parse_eq_denote : WF f → Model.parseTerms cfg env (render f) = Spec.denoteFormula cfg f`
-for the whole grammar INCLUDING the `.` wildcard, the literal `0` as a summand, runs of signs, quoted /
-Python atoms, and an arbitrary `render : Formula → String` (any whitespace, redundant parentheses).
-What is missing: (1) the tokenizer on an ARBITRARILY spaced / quoted rendering (C01.7h covers single
-spaces and plain atoms; for the rest `tokenize (render f) = tokens f` is a hypothesis of C01.7d, checked
-on every generated string by the `get_tokens` correspondence), and a part after `~` / `|` that starts
-with a sign (the lexer merges `~ -` into one token, which the rewriting splits again: covered from the
-token sequence, C01.7e); (2) `.`, `0` and sign runs inside the grammar (`0` and sign runs are covered at
-the token / character level by C01.6i and C01.2, `.` by the correspondence plus the reference evaluator
-`harness/parser_common.py: denote`). -/
+EXTENDED GRAMMAR (C01.11a–g, reference semantics `Spec/WilkinsonDenoteR.lean`): the same theorem for the
+grammar `Proofs/C01GrammarR.lean` — arbitrary RUNS OF SIGNS wherever a sign may stand (read by parity), the
+literal `0` as a summand (`+ 0` removes, `- 0` adds the intercept), the WILDCARD `.` as an atom (the available
+variables of the context that the written left-hand side does not use; rejected without a context), and ANY
+token that is not a bracket, an operator or `0` as a leaf (names, back-quoted names, numbers, strings, Python
+fragments and calls — the theorems do not look at the leaf's kind): from the token sequence as written and as
+the lexer delivers it (a separator and the signs of the part after it are ONE token: C01.11b, g), from any
+spelling given its tokenisation (C01.11d), and from the STRING with no tokenizer hypothesis for single-space
+renderings that may contain sign runs, `0`, `.`, back-quoted names, brace fragments and calls (C01.11e) and for
+every re-spacing of those (C01.11h).
+
+FULL (unproved): `parse_eq_denote : Model.parseTerms cfg env (render f) = Spec.denoteFormulaR cfg (dotOf env f) f`
+for the whole grammar and an arbitrary `render : FormulaR → String` (any whitespace).
+What is missing: (1) a CLOSED-FORM spacing statement: C01.7h / C01.11e cover one space after every written
+token and C01.11h the closure of that under inserting / removing whitespace at every gap of a formula (after
+operators, brackets and finished tokens; between a word and a following operator, `)`, `%in%` or the end) as
+a RELATION between strings, not as `∀ spacing function`; for any other spelling `tokenize (render f) = tokens
+f` is a hypothesis of C01.7d / C01.11d, checked on every generated string by the `get_tokens`
+correspondence (redundant parentheses are inside the grammar: `AtomR.paren`);
+(2) a sign directly after a binary operator
+that is neither a sign nor a separator (`a * -b`, `a:--b`: one lexer token `*-`; the character-level
+theorems C01.2 and the correspondence cover it); (3) the multi-stage brackets `[ … ~ … ]` (experimental;
+correspondence only). -/
 namespace FormulaicVerif.Props.C01
 open FormulaicVerif FormulaicVerif.Model FormulaicVerif.Proofs.ShuntC
 
@@ -759,6 +774,230 @@ example : (render ascii ((Formula.two (nmS 'y') [] aPlusB []).toks.map ltOfTok))
     (opIso_two _ _ rfl) ⟨rfl, Or.inl ⟨rfl, rfl⟩⟩ (by decide)⟩
 
 end Rendered
+
+/-! ### C01.11 — runs of signs and the literal `0` INSIDE the grammar; quoted and Python atoms
+
+Grammar `Proofs/C01GrammarR.lean`: `SumR := [signs] Summand | SumR signs Summand`, `Summand := ProdR | 0`,
+`signs` a non-empty run of `+`/`-`, `AtomR := token | ( SumR )` — runs and zeros at any depth; a leaf is ANY
+token that is neither a bracket, nor an operator, nor the literal `0`: a name, a back-quoted name, a number, a
+Python fragment (the theorems are parametric in the leaf's kind and text). Reference semantics
+`Spec/WilkinsonDenoteR.lean`: a run means the sign of its parity; `0` is the intercept with the opposite
+sign (`+ 0` removes it, `- 0` adds it). -/
+section Runs
+open FormulaicVerif.Proofs.C01Runs FormulaicVerif.Proofs.C01GrammarR FormulaicVerif.Proofs.C01DenoteR
+  FormulaicVerif.Spec.DenoteR FormulaicVerif.Proofs.C01Lex FormulaicVerif.Proofs.C01MergedR
+
+/-- C01.11a  **A run of signs is the sign of its parity, through the operator table**: an operator token
+whose text is any non-empty run of `+`/`-` resolves, under each of the 8 feature-flag subsets, to exactly the
+candidates (binary, unary) of `-` if it contains an odd number of `-`, else of `+` (C01.2c is the
+character-level fact). -/
+theorem sign_run_resolves (a b c : Bool) (r : List Char) (hr : IsRun r) :
+    resolveToken (Gen.defaultTable a b c) r = .ok [(runOp r).cands] := by
+  rw [table_is_documented]; exact resolve_run a b c r hr
+
+/-- C01.11b  **Parse = denotation with sign runs, zeros, opaque leaves and `.`, from the token sequence.**
+For every formula `Side`, `~ Side`, `Side ~ Side` (sides are `|`-chains of sums) whose sums are `SumR`s —
+arbitrary runs of signs wherever a sign may stand, the literal `0` as a summand, the wildcard `.` as an atom,
+any token that is not a bracket, an operator or `0` as a leaf (names, quoted names, numbers, strings, Python
+fragments: the theorem does not look at the leaf's kind), at any nesting depth — that the feature flags
+allow, and for every parser configuration and environment, `get_terms` (from the sanitised tokens on) is
+`denoteFormulaR`: runs read by parity, `+ 0` / `- 0` removing / adding the intercept, every right-hand part
+read from `{1}` with `include_intercept`, and `.` denoting `dotOf env f` = the available variables of the
+context (`env.available`) that the written left-hand side does not use (C01.11f), the same value at every
+occurrence; with no available variables in the context every formula containing `.` is rejected. The same for
+the token sequence AS THE LEXER DELIVERS IT (`toksL`): when a part after `~` / `|` begins with signs, the
+separator and the signs are one operator token (`y ~ -a` is `y`, `~-`, `a`; C01.11g). (No `NoZero`
+hypothesis, no hypothesis on the context. `_partial`: a sign directly after a non-sign, non-separator
+operator (`a * -b`) and the multi-stage brackets stay out.) -/
+theorem parse_eq_denote_runs_tokens_partial (cfg : ParseCfg) (env : PyEnv) (f : FormulaR)
+    (hen : FormulaR.Enabled cfg f) :
+    Proofs.C01Denote.parseToks cfg env f.toks = denoteFormulaR cfg (dotOf env f) f
+    ∧ Proofs.C01Denote.parseToks cfg env f.toksL = denoteFormulaR cfg (dotOf env f) f :=
+  ⟨Proofs.C01DenoteRSpec.parse_eq_denoteR cfg env f hen, Proofs.C01MergedR.parse_eq_denoteL cfg env f hen⟩
+
+/-- C01.11c  Without `.`, the denotation with runs and zeros is the old denotation of the NORMAL FORM: every
+run replaced by the sign of its parity, `± 0` by `∓ 1` (whatever `.` would denote). -/
+theorem runs_denote_as_normal_form (cfg : ParseCfg) (dv : Except ParseErr (List Term)) (f : FormulaR)
+    (hn : f.NoDot) :
+    denoteFormulaR cfg dv f = Spec.Denote.denoteFormula cfg f.norm :=
+  Proofs.C01DenoteRSpec.denoteFormulaR_norm dv cfg f hn
+
+/-- C01.11d  … from the string, given that it tokenises (and its Python fragments normalise) to the tokens of
+`f` up to source spans — as written, or as the lexer delivers them (merged separator-and-sign tokens). -/
+theorem parse_eq_denote_runs_partial (cfg : ParseCfg) (env : PyEnv) (cs : List CharInfo) (ts0 ts : List Tok)
+    (f : FormulaR) (h1 : tokenizeStream cs = (ts0, none)) (h2 : sanitizeTokens env.norm ts0 = .ok ts)
+    (h3 : ts.map Proofs.C15Ws.erase = f.toks ∨ ts.map Proofs.C15Ws.erase = f.toksL) (hen : FormulaR.Enabled cfg f) :
+    parseTerms cfg env cs = denoteFormulaR cfg (dotOf env f) f :=
+  Proofs.C01StringR.parse_eq_denote_stringR cfg env cs ts0 ts f h1 h2 h3 hen
+
+/-- C01.11e  **From the STRING, no tokenizer hypothesis, with sign runs, `0`, `.`, back-quoted names, brace
+fragments and calls.** `lts` is the formula as written, token by token (`LT`: a word — a name, a number, `0`,
+the wildcard `.` —, an operator token — a sign run is one —, `%in%`, a parenthesis, `` `name` ``, `{code}`,
+`f(…)[…]`), each token followed by one space, no two operator tokens in a row (a separator and the signs of
+the part after it are ONE written token, as for the lexer: `toksL`); the leaves of `f` are what
+`sanitize_tokens` makes of the written tokens (Python fragments replaced by their normal form `env.norm`, a
+parameter; the unquoted word `.` becomes the wildcard). Then the string parses to
+`denoteFormulaR cfg (dotOf env f) f`. -/
+theorem parse_eq_denote_rendered_runs_partial (C : Classes) (hsp : SpaceChar (C.cl ' ')) (cfg : ParseCfg)
+    (env : PyEnv) (f : FormulaR) (lts : List LT) (hok : ∀ lt ∈ lts, lt.Ok C) (hadj : NoAdjOps lts)
+    (hsan : sanitizeTokens env.norm (lts.map (fun lt => lt.tok C)) = .ok f.toks
+      ∨ sanitizeTokens env.norm (lts.map (fun lt => lt.tok C)) = .ok f.toksL)
+    (hen : FormulaR.Enabled cfg f) :
+    parseTerms cfg env (render C lts) = denoteFormulaR cfg (dotOf env f) f :=
+  Proofs.C01StringR.parse_renderR C hsp cfg env f lts hok hadj hsan hen
+
+/-- C01.11h  **… and from every re-spacing of such a string.** `Respaced2` (`Proofs/C01Respace.lean`) is the
+equivalence generated by inserting one unquoted whitespace character (i) where no quote is open and the
+pending token is empty or an operator — after an operator, a bracket, a finished token (`Respaced`,
+`Props/C15.lean` C15.1d) — or (ii) between a pending name / number / Python token and a following operator
+character, a closing parenthesis, the `%` of `%in%` or the end of the string; any number of times, adding and
+removing. Every
+string `b` so related to the single-space rendering of C01.11e parses to the denotation of `f` too (`normE`
+forgets only the explanatory text of a syntax error). What the relation does not reach: a space between a name
+and an opening bracket (it decides between a name and a call) and whitespace inside quotes. -/
+theorem parse_eq_denote_respaced_partial (C : Classes) (hsp : SpaceChar (C.cl ' ')) (cfg : ParseCfg)
+    (env : PyEnv) (f : FormulaR) (lts : List LT) (hok : ∀ lt ∈ lts, lt.Ok C) (hadj : NoAdjOps lts)
+    (hsan : sanitizeTokens env.norm (lts.map (fun lt => lt.tok C)) = .ok f.toks
+      ∨ sanitizeTokens env.norm (lts.map (fun lt => lt.tok C)) = .ok f.toksL)
+    (hen : FormulaR.Enabled cfg f) (b : List CharInfo) (hb : Proofs.C01Respace.Respaced2 (render C lts) b) :
+    Proofs.C15Formula.normE (parseTerms cfg env b)
+      = Proofs.C15Formula.normE (denoteFormulaR cfg (dotOf env f) f) := by
+  rw [← (Proofs.C01Respace.respaced2_formula cfg env hb).2,
+    Proofs.C01StringR.parse_renderR C hsp cfg env f lts hok hadj hsan hen]
+
+/-- C01.11f  **What `.` denotes** (`dotOf`, the value used by C01.11b/d/e): with available variables `av` in
+the context, one single-factor term per variable of `av` (first occurrences, in order) that is not among the
+variables of the written left-hand side — the names in front of `~` and the data variables of its Python
+fragments —, so ALL available variables for a one-sided formula; a rejection when the context has no
+available variables. (`Props/C17.lean` C17.6 is about this expansion inside `Formula(...)`.) -/
+theorem wildcard_denotes_unused_variables (env : PyEnv) (f : FormulaR) :
+    (∀ av, env.available = some av →
+      dotOf env f = .ok (oset (((dedupBy id av).filter (fun v => !(lhsVars env f).contains v)).map
+        (fun v => [Factor.mk v .lookup]))))
+    ∧ (env.available = none → ∃ e, dotOf env f = .error e)
+    ∧ (∀ l ltail p tail, f = .two l ltail p tail →
+        lhsVars env f = lhsVariables env (partsWith SumR.raw l ltail))
+    ∧ (∀ p tail, f = .one p tail ∨ f = .tilde p tail → lhsVars env f = []) := by
+  refine ⟨fun av h => by simp only [dotOf, dotValue, h], fun h => ⟨.syntax "`.` needs the available variables", by simp only [dotOf, dotValue, h]⟩, ?_, ?_⟩
+  · rintro l ltail p tail rfl; rfl
+  · rintro p tail (rfl | rfl) <;> rfl
+
+/-- C01.11g  **A separator and the signs after it: one token or two, the rewriting does not care.** For every
+token list in which every operator token containing `~` (resp. `|`) is exactly that character or that
+character followed by a non-empty run of signs (`ShapeC`), the parser's token rewriting
+(`get_tokens_from_formula` after sanitisation) returns the same token list as for the list in which every such
+merged token is split into the separator token and the sign token (`splitL`), and left-hand-side tokens that
+differ only by that splitting. (Why `y ~ -a`, lexed `y`, `~-`, `a`, gets its `1` between the `~` and the `-`.) -/
+theorem rewriting_ignores_merged_separators (add : Bool) (ts : List Tok)
+    (h1 : Proofs.C01Merged.ShapeC '~' ts) (h2 : Proofs.C01Merged.ShapeC '|' ts) :
+    (interceptTokens add (Proofs.C01Merged.splitL '|' (Proofs.C01Merged.splitL '~' ts))).1 = (interceptTokens add ts).1
+    ∧ (interceptTokens add (Proofs.C01Merged.splitL '|' (Proofs.C01Merged.splitL '~' ts))).2
+        = Proofs.C01Merged.splitL '|' (interceptTokens add ts).2 :=
+  Proofs.C01Merged.interceptTokens_split add ts h1 h2
+
+private def wordTok (s : String) (k : TKind) : Tok := { text := s.toList, kind := some k }
+private def atomOf (t : Tok) (h : t.kind ≠ some .context ∧ t.kind ≠ some .operator ∧ ¬ Proofs.C01Intercept.IsZero t
+    ∧ t ≠ Proofs.C01ShuntDot.x0) : ProdR :=
+  .inter (.pow (.atom (.tok t h)))
+private def pA : ProdR := atomOf (wordTok "a" .name) (by decide)
+private def pB : ProdR := atomOf (wordTok "b" .name) (by decide)
+private def pY : ProdR := atomOf (wordTok "y" .name) (by decide)
+private def pQ : ProdR := atomOf (wordTok "a b" .name) (by decide)
+private def pF : ProdR := atomOf (wordTok "f(x)" .python) (by decide)
+private def pDot : ProdR := .inter (.pow (.atom .dot))
+private def run (s : String) (h : IsRun s.toList) : Run := ⟨s.toList, h⟩
+private def tmS (s : String) (m : EvalMethod) : Term := [Factor.mk s m]
+private def envD : PyEnv := { env0 with available := some ["y", "a", "b", "c", "a"] }
+
+/-- non-vacuity: the STRING `a +- b --+ 0 ` (a run read as `-`, a run read as `+`, a literal zero) satisfies
+every hypothesis (decided / computed), so it parses to the denotation, which is `{a}`: from `{1}`, add `a`,
+remove `b`, `+ 0` removes the intercept -/
+example :
+    let f : FormulaR := .one (.addZero (run "--+" (by decide)) (.add (run "+-" (by decide)) (.first none pA) pB)) []
+    let lts : List LT := [.word "a".toList, .op "+-".toList, .word "b".toList, .op "--+".toList, .word "0".toList]
+    (render ascii lts).map (·.c) = "a +- b --+ 0 ".toList
+    ∧ parseTerms {} env0 (render ascii lts) = denoteFormulaR {} (dotOf env0 f) f
+    ∧ denoteFormulaR {} (dotOf env0 f) f = .ok (.struct [("root", .set [tmS "a" .lookup])]) := by
+  intro f lts
+  exact ⟨by decide, parse_eq_denote_rendered_runs_partial ascii (by decide) {} env0 f lts (by decide) (by decide)
+    (Or.inl (by rfl)) (Or.inl rfl), by rfl⟩
+
+/-- non-vacuity of C01.11h: `a+-b --+ 0 ` — the space after `a` removed (a word gap: `+` follows) and the space
+after `+-` removed (a safe gap: the pending token is an operator) — parses to the same denotation -/
+example :
+    let f : FormulaR := .one (.addZero (run "--+" (by decide)) (.add (run "+-" (by decide)) (.first none pA) pB)) []
+    Proofs.C15Formula.normE (parseTerms {} env0 ("a+-b --+ 0 ".toList.map ascii.cl))
+      = Proofs.C15Formula.normE (denoteFormulaR {} (dotOf env0 f) f) := by
+  intro f
+  apply parse_eq_denote_respaced_partial ascii (by decide) {} env0 f
+    [.word "a".toList, .op "+-".toList, .word "b".toList, .op "--+".toList, .word "0".toList]
+    (by decide) (by decide) (Or.inl (by rfl)) (Or.inl rfl)
+  have h : render ascii [.word "a".toList, .op "+-".toList, .word "b".toList, .op "--+".toList, .word "0".toList]
+      = "a".toList.map ascii.cl ++ ascii.cl ' ' :: "+- b --+ 0 ".toList.map ascii.cl := by decide
+  rw [h]
+  refine .trans (.symm (.word ("a".toList.map ascii.cl) ("+- b --+ 0 ".toList.map ascii.cl) (ascii.cl ' ')
+    ⟨⟨(lexLoop ("a".toList.map ascii.cl) 0 {}).1,
+      Prod.ext rfl (show (lexLoop ("a".toList.map ascii.cl) 0 {}).2 = none by decide +kernel),
+      by decide +kernel, by decide +kernel, by decide +kernel, by decide +kernel⟩,
+      Or.inr ⟨_, _, rfl, Or.inl (by decide)⟩⟩ (by decide))) ?_
+  exact .base (.symm (.insert ("a+-".toList.map ascii.cl) ("b --+ 0 ".toList.map ascii.cl) (ascii.cl ' ')
+    ⟨(lexLoop ("a+-".toList.map ascii.cl) 0 {}).1,
+      Prod.ext rfl (show (lexLoop ("a+-".toList.map ascii.cl) 0 {}).2 = none by decide +kernel),
+      by decide +kernel, by decide +kernel, by decide +kernel⟩
+    ⟨by decide +kernel, by decide +kernel⟩))
+
+/-- non-vacuity with opaque leaves: `` `a b` + f(x) - 0 `` — a back-quoted name, a call, `- 0` (which ADDS the
+intercept; it is there already) -/
+example :
+    let f : FormulaR := .one (.addZero (run "-" (by decide)) (.add (run "+" (by decide)) (.first none pQ) pF)) []
+    let lts : List LT := [.bq "a b".toList, .op "+".toList, .call "f".toList [('(', "x".toList, ')')],
+      .op "-".toList, .word "0".toList]
+    (render ascii lts).map (·.c) = "`a b` + f(x) - 0 ".toList
+    ∧ parseTerms {} env0 (render ascii lts) = denoteFormulaR {} (dotOf env0 f) f
+    ∧ denoteFormulaR {} (dotOf env0 f) f
+        = .ok (.struct [("root", .set [Spec.Denote.intercept, tmS "a b" .lookup, tmS "f(x)" .python])]) := by
+  intro f lts
+  exact ⟨by decide, parse_eq_denote_rendered_runs_partial ascii (by decide) {} env0 f lts (by decide) (by decide)
+    (Or.inl (by rfl)) (Or.inl rfl), by rfl⟩
+
+/-- non-vacuity with the wildcard: the STRING `y ~ . - a ` in a context whose available variables are
+`y, a, b, c, a`: `.` is `{a, b, c}` (`y` is used on the left, the second `a` is a repetition), so the
+right-hand side is `{1, b, c}`; with no available variables in the context the same string is rejected -/
+example :
+    let f : FormulaR := .two (.first none pY) [] (.add (run "-" (by decide)) (.first none pDot) pA) []
+    let lts : List LT := [.word "y".toList, .op "~".toList, .word ".".toList, .op "-".toList, .word "a".toList]
+    (render ascii lts).map (·.c) = "y ~ . - a ".toList
+    ∧ parseTerms {} envD (render ascii lts) = denoteFormulaR {} (dotOf envD f) f
+    ∧ denoteFormulaR {} (dotOf envD f) f
+        = .ok (.struct [("lhs", .set [tmS "y" .lookup]),
+            ("rhs", .set [Spec.Denote.intercept, tmS "b" .lookup, tmS "c" .lookup])])
+    ∧ (∃ e, parseTerms {} env0 (render ascii lts) = .error e) := by
+  intro f lts
+  refine ⟨by decide, parse_eq_denote_rendered_runs_partial ascii (by decide) {} envD f lts (by decide) (by decide)
+    (Or.inl (by rfl)) ⟨rfl, Or.inl ⟨rfl, rfl⟩⟩, by rfl, ?_⟩
+  rw [parse_eq_denote_rendered_runs_partial ascii (by decide) {} env0 f lts (by decide) (by decide)
+    (Or.inl (by rfl)) ⟨rfl, Or.inl ⟨rfl, rfl⟩⟩]
+  exact ⟨_, rfl⟩
+
+/-- non-vacuity with a merged separator: the STRING `y ~- a + b | -- c ` (tokens `y`, `~-`, `a`, `+`, `b`, `|--`,
+`c`): each right-hand part starts with signs; the first part is `{1} - a + b = {1, b}`, the second
+`{1} + c = {1, c}` -/
+example :
+    let f : FormulaR := .two (.first none pY) []
+      (.add (run "+" (by decide)) (.first (some (run "-" (by decide))) pA) pB)
+      [.first (some (run "--" (by decide))) (atomOf (wordTok "c" .name) (by decide))]
+    let lts : List LT := [.word "y".toList, .op "~-".toList, .word "a".toList, .op "+".toList, .word "b".toList,
+      .op "|--".toList, .word "c".toList]
+    (render ascii lts).map (·.c) = "y ~- a + b |-- c ".toList
+    ∧ parseTerms {} env0 (render ascii lts) = denoteFormulaR {} (dotOf env0 f) f
+    ∧ denoteFormulaR {} (dotOf env0 f) f
+        = .ok (.struct [("lhs", .set [tmS "y" .lookup]),
+            ("rhs", .tuple [.set [Spec.Denote.intercept, tmS "b" .lookup], .set [Spec.Denote.intercept, tmS "c" .lookup]])]) := by
+  intro f lts
+  exact ⟨by decide, parse_eq_denote_rendered_runs_partial ascii (by decide) {} env0 f lts (by decide) (by decide)
+    (Or.inr (by rfl)) ⟨rfl, Or.inr rfl⟩, by rfl⟩
+
+end Runs
 
 /-! ### C01.10 — algebraic laws of the term algebra (ordered term sets; `Proofs/C01Algebra.lean`)
 
